@@ -92,16 +92,12 @@ def prepare(x, warr):
 def pstar(p, delta):
     """log10(-ln(1 - p^(1/delta))) without underflow or cancellation: with t = ln(p)/delta < 0,
     -ln(1 - e^t) = e^t (1 + e^t/2 + ...) for very negative t; ln(1 - e^t) via expm1 / log1p otherwise"""
-    t = [math.log(pi) / delta for pi in np.asarray(p, float)]
-    out = []
-    for ti in t:
-        if ti < -40.0:                       # e^t < 4e-18: -ln(1-e^t) = e^t to double precision
-            out.append(ti / math.log(10.0))
-        elif ti > -0.6931471805599453:
-            out.append(math.log10(-math.log(-math.expm1(ti))))
-        else:
-            out.append(math.log10(-math.log1p(-math.exp(ti))))
-    return np.array(out)
+    t = np.log(np.asarray(p, float)) / delta
+    with np.errstate(all="ignore"):
+        near0 = np.log10(-np.log(-np.expm1(np.minimum(t, -1e-300))))     # t > -ln 2: 1 - e^t via expm1
+        mid = np.log10(-np.log1p(-np.exp(t)))
+        far = t / math.log(10.0)                   # e^t < 4e-18: -ln(1 - e^t) = e^t to double precision
+    return np.where(t < -40.0, far, np.where(t > -0.6931471805599453, near0, mid))
 
 
 def ref_regression(xs, p, wn, delta):
@@ -320,6 +316,8 @@ def free_histories(vc, c, x, method, warg, warr, base, all_huge=False):
     o.fit(a_small, method=method)           # leaves a tiny delta in the object
     measure("after_small_delta_fit", o)
     measure("constructed_small_delta", EW(delta=1e-4))
+    if not all_huge and len(x) > 200:      # quick: the huge-start histories on the samples of up to 200 points
+        return out
     # the mirror image: a delta that ran away in an earlier fit (a small exponential sample with cubic weights
     # has no minimiser in delta), or a huge delta given to the constructor
     o = EW()
@@ -375,7 +373,7 @@ def law_record(vc, rid, c, seed):
     isint = c["cls"] == "integers"
     rec = dict(id=rid, kind="law", wk=wk, fixed=bool(c["fixed"]), n=c["n"], exc="", haszeros=haszeros, isint=isint,
                tiecons=True, variants=[], g=0, ab=0, dq=0, dfix=0, pos=True, em=0, ep=0, hq=0, emdef=True, epdef=True,
-               bits0=[], bitsH=[], bitsA=[], bitsB=[], hist=[], fhist=[])
+               bits0=[], bitsH=[], bitsA=[], bitsB=[], hist=[], fhist=[], hfull=False)
     with warnings.catch_warnings():
         warnings.simplefilter("ignore")
         try:
@@ -420,6 +418,7 @@ def law_record(vc, rid, c, seed):
                 rec["hist"] = object_histories(vc, x, method, warg, fdelta)
             else:
                 rec["fhist"] = free_histories(vc, c, x, method, warg, warr, (al, be, de), all_huge=ALL_HUGE[0])
+                rec["hfull"] = bool(ALL_HUGE[0] or len(x) <= 200)
             if isint:       # the same numbers as integers (the weights x, x^2, x^3 must not overflow)
                 for dt in (np.int32, np.int64):
                     variant("intdtype", x.astype(dt), warg, warr)
